@@ -5,6 +5,7 @@ import (
 	"crypto/sha256"
 	"encoding/hex"
 	"encoding/json"
+	"strings"
 	"sync"
 
 	"github.com/vektah/gqlparser/v2/gqlerror"
@@ -59,7 +60,12 @@ func Harness_C15_apq() {
 	p := &graphql.RawParams{Query: text}
 	hashSent := ""
 	wellFormed := false
-	switch zzsym.Choice("ext", 11) {
+	switch zzsym.Choice("ext", 17) {
+	case 11, 12, 13, 14, 15, 16:
+		// near misses of the hash of {a}: other letter case, extra digits, trailing / leading junk, one digit short
+		ha := c15Hash(c15Texts[0])
+		hashSent, wellFormed = []string{strings.ToUpper(ha), ha + "0", ha + "zz", " " + ha, ha[:63], ha + "00"}[zzsym.Choice("near", 6)], true
+		p.Extensions = map[string]any{"persistedQuery": map[string]any{"sha256Hash": hashSent, "version": json.Number("1")}}
 	case 0: // no extensions at all
 	case 1:
 		p.Extensions = map[string]any{"persistedQuery": "x"}
